@@ -252,60 +252,88 @@ def run(rep):
     rep.check(".zip" in sufs and ".gz" in sufs, "R09.a", rel, "read_csv", "reader dispatches on '.zip' and '.gz'", f"found {sufs}", line=r.lineno)
 
     # ---------------- R09.b header grammar -----------------------------------------------------------------------------------
-    # writer line shapes
-    lines = []
-    for n in ast.walk(ch):
-        if isinstance(n, ast.Call) and isinstance(n.func, ast.Attribute) and n.func.attr == "append" and dotted(n.func.value) == "head":
-            lines.append(n.args[0])
-    rep.floor("header lines appended by _csvhead", len(lines), 8)
-    shapes = {"rule": 0, "keyval": 0, "other": []}
-    for a in lines:
-        txt = flatten_str(a)
-        if txt is None:
-            shapes["other"].append(ast.unparse(a)[:50])
-        elif re.fullmatch(r"# -{10,}", txt):
-            shapes["rule"] += 1
-        elif re.match(r"# [A-Za-z_{}]+ : ", txt):
-            shapes["keyval"] += 1
-        else:
-            shapes["other"].append(txt[:50])
-    rep.check(shapes["rule"] == 2, "R09.b", rel, "_csvhead", "header opens and closes with a dashed rule of >= 10 dashes", f"{shapes['rule']} rule lines", line=ch.lineno)
-    # every non-rule line must be '# key : value' (first colon within the key window) -- known deviation: python_environment
-    for o in shapes["other"]:
+    from .. import pq
+    from ..formula import show as _show, num as _num
+    hpe = pq.PEval()
+    hpaths = [p_ for p_ in hpe.run(ch) if p_.how == "return"]
+    if not hpaths:
+        raise AnalysisError(f"{rel}: _csvhead: no returning path")
+
+    def literal_prefix(e):
+        """leading literal text of a line expression (f-string / concatenation / constant)"""
+        if e[0] == 'sym' and e[1][:1] in ("'", '"'):
+            return e[1][1:-1]
+        if pq.call_named(e, "fstr") and e[2] and e[2][0][0] == 'sym' and e[2][0][1][:1] in ("'", '"'):
+            return e[2][0][1][1:-1]
+        if e[0] == 'add':
+            return literal_prefix(e[1])
+        return None
+    nlines, okrule, oknrow = 0, True, True
+    others = {}
+    segs = []
+    pn = [a.arg for a in ch.args.args]
+    for p_ in hpaths:
+        v = p_.value
+        if not (isinstance(v, tuple) and v[0] == 'tuple' and len(v[1]) >= 4):
+            raise AnalysisError(f"{rel}: _csvhead: returned header is not a list built in the function")
+        lines = v[1]
+        nlines = max(nlines, len(lines))
+        first, last = literal_prefix(lines[0]), literal_prefix(lines[-1])
+        okrule = okrule and first is not None and last is not None and bool(re.fullmatch(r"# -{10,}", first)) and bool(re.fullmatch(r"# -{10,}", last)) and \
+            lines[0][0] == 'sym' and lines[-1][0] == 'sym'
+        oknrow = oknrow and any(pq.same(x, ('call', 'fstr', (('sym', "'# nrow : '"), ('sym', pn[0])))) for x in lines) and \
+            any(pq.same(x, ('call', 'fstr', (('sym', "'# ncol : '"), ('sym', pn[1])))) for x in lines)
+        for x in lines[1:-1]:
+            if pq.call_named(x, "seg"):
+                segs += [(y[2][0] if pq.call_named(y, "map") else y) for y in x[2]]
+                continue
+            lp = literal_prefix(x)
+            if lp is None or not re.match(r"# [A-Za-z_]+ : ", lp):
+                others[_show(x)[:60]] = x
+    rep.floor("header lines built by _csvhead", nlines, 8)
+    rep.check(okrule, "R09.b", rel, "_csvhead", "header opens and closes with a dashed rule of >= 10 dashes", "", line=ch.lineno)
+    for o in sorted(others):
         if "python_environment" in o:
-            rep.assumed("R09.b", rel, "_csvhead", f"line `{o}`", "system-info line without colon: read back as comment_NN (not a caller-supplied comment)", line=ch.lineno)
+            rep.assumed("R09.b", rel, "_csvhead", "line `# python_environment ..`", "system-info line without colon: read back as comment_NN (not a caller-supplied comment)", line=ch.lineno)
         else:
             rep.violation("R09.b", rel, "_csvhead", f"line `{o}`", "not of the form '# key : value': the reader cannot split it", line=ch.lineno)
-    # nrow / ncol
+    rep.check(oknrow and pn[:2] == ["nrow", "ncol"], "R09.b", rel, "_csvhead", "'# nrow : {nrow}' and '# ncol : {ncol}' lines", "", line=ch.lineno)
+    # comment lines: '# ' key ' : ' value with the value looked up under that key
+    okseg = bool(segs)
+    for x in segs:
+        okseg = okseg and pq.call_named(x, "fstr") and len(x[2]) == 4 and x[2][0] == ('sym', "'# '") and x[2][2] == ('sym', "' : '") and \
+            pq.call_named(x[2][3], "getitem") and pq.same(x[2][3][2][1], x[2][1])
+    rep.check(okseg, "R09.b", rel, "_csvhead", "comment lines are '# <key> : <comments[key]>'", "", line=ch.lineno)
+    # nrow / ncol passed by the writer
     call = [n for n in ast.walk(w) if isinstance(n, ast.Call) and dotted(n.func) == "_csvhead"]
-    okn = bool(call) and len(call[0].args) >= 2 and ast.unparse(call[0].args[0]) == "data.shape[0]" and ast.unparse(call[0].args[1]) == "data.shape[1]"
-    rep.check(okn, "R09.b", rel, "write_csv", "nrow, ncol = data.shape[0], data.shape[1]", ast.unparse(call[0])[:70] if call else "", line=w.lineno)
-    pn = [a.arg for a in ch.args.args]
-    nrow_line = [flatten_str(a) for a in lines if flatten_str(a) and "nrow" in flatten_str(a)]
-    ncol_line = [flatten_str(a) for a in lines if flatten_str(a) and "ncol" in flatten_str(a)]
-    rep.check(pn[:2] == ["nrow", "ncol"] and nrow_line == ["# nrow : {nrow}"] and ncol_line == ["# ncol : {ncol}"], "R09.b", rel, "_csvhead",
-              "'# nrow : {nrow}' and '# ncol : {ncol}' lines", f"{nrow_line} {ncol_line}", line=ch.lineno)
-    # dict branch: key colon-free + lower, value untouched
-    dbr = [n for n in ast.walk(ch) if isinstance(n, ast.If) and "dict" in ast.unparse(n.test)]
+    okn = False
+    if call:
+        wargs = pq.call_arguments(w, call[0], pn)
+        nr_, nc_ = wargs.get("nrow"), wargs.get("ncol")
+        okn = pq.call_named(nr_, "shape") and pq.call_named(nc_, "shape") and pq.same(nr_[2][1], "0") and pq.same(nc_[2][1], "1") and \
+            pq.same(nr_[2][0], nc_[2][0]) and pq.mentions(nr_[2][0], lambda e: e == ('sym', 'data'))
+    rep.check(okn, "R09.b", rel, "write_csv", "nrow, ncol = data.shape[0], data.shape[1]", "", line=w.lineno)
+    # dict comments: key = the caller's key with colons removed and lower-cased, value untouched
     okd, det = False, "dict branch not found"
-    if dbr:
-        for n in ast.walk(ast.Module(body=dbr[0].body, type_ignores=[])):
-            if isinstance(n, ast.For):
-                src = ast.unparse(n.iter)
-                if isinstance(n.target, ast.Name):
-                    kvar, vexprs = n.target.id, {f"comment[{n.target.id}]"}
-                elif isinstance(n.target, ast.Tuple) and len(n.target.elts) == 2:
-                    kvar, vexprs = n.target.elts[0].id, {n.target.elts[1].id}
-                else:
-                    continue
-                for s in n.body:
-                    if isinstance(s, ast.Assign) and isinstance(s.targets[0], ast.Subscript) and dotted(s.targets[0].value) == "comments":
-                        kexp = s.targets[0].slice
-                        key_ok = any(isinstance(x, ast.Call) and dotted(x.func) == "re.sub" and const_value(x.args[0]) == ":" and
-                                     const_value(x.args[1]) == "" and kvar in ast.unparse(x.args[2]) for x in ast.walk(kexp))
-                        val_ok = ast.unparse(s.value) in vexprs
-                        okd = key_ok and val_ok
-                        det = f"key `{ast.unparse(kexp)}` (colons removed: {key_ok}); value `{ast.unparse(s.value)}` (untouched: {val_ok})"
+    dstores = []
+    for tag, p_ in getattr(hpe, "loop_paths", []):
+        if pq.cond_truth(p_.conds, "isinstance(comment, dict)") is True:
+            dstores += [e for e in p_.effects if e.kind == 'store']
+    dmaps = []
+    for p_ in hpaths:
+        if pq.cond_truth(p_.conds, "isinstance(comment, dict)") is True:
+            for nm, val in p_.env.items():
+                if isinstance(val, tuple) and pq.call_named(val, "dictmap"):
+                    dmaps.append(val)
+    cands = [(e.key, e.val) for e in dstores] + [(m[2][0], m[2][1]) for m in dmaps]
+    for k_, v_ in cands:
+        subs = pq.find(k_, lambda x: pq.call_named(x, ".sub") and x[2][0] == ('sym', 're') and x[2][1] == ('sym', "':'") and x[2][2] == ('sym', "''"))
+        K0 = subs[0][2][3] if subs else None
+        key_ok = K0 is not None and (pq.call_named(K0, "elem") or pq.call_named(K0, "getitem"))
+        val_ok = K0 is not None and (pq.same(v_, ('call', 'getitem', (('sym', 'comment'), K0))) or
+                                     (pq.call_named(K0, "getitem") and pq.call_named(v_, "getitem") and pq.same(K0[2][0], v_[2][0]) and pq.same(v_[2][1], "1")))
+        okd = key_ok and val_ok
+        det = f"key `{_show(k_)[:80]}` (colons removed: {key_ok}); value `{_show(v_)[:60]}` (untouched: {val_ok})"
     rep.check(okd, "R09.b", rel, "_csvhead", "dict comments: colon-free lower-case key, value stored unchanged", det, line=ch.lineno)
     # reader regular expressions (syntax trees)
     import re._parser as sp
@@ -332,26 +360,62 @@ def run(rep):
               "; ".join(bad), line=strip[0].lineno)
     loopcond = [n for n in ast.walk(r) if isinstance(n, ast.While) and 'startswith' in ast.unparse(n.test)]
     rep.check(bool(loopcond) and "'#'" in ast.unparse(loopcond[0].test), "R09.b", rel, "read_csv", "header = leading lines starting with '#'", "", line=r.lineno)
-    # _header2comment: rule detector, first-colon split, key window
-    hs = ast.unparse(h2c)
-    rd = [n for n in ast.walk(h2c) if isinstance(n, ast.Call) and dotted(n.func) == "re.search" and isinstance(n.args[0], ast.Constant) and "-" in n.args[0].value]
+    # _header2comment: one symbolic line E through the loop body
+    rpe = pq.PEval()
+    rpe.run(h2c)
+    lps = [p_ for tag, p_ in getattr(rpe, "loop_paths", [])]
+    E = None
+    for p_ in lps:
+        for c, t in p_.conds:
+            f_ = pq.find(c, lambda x: pq.call_named(x, "elem"))
+            if f_:
+                E = f_[0]
+    if E is None:
+        raise AnalysisError(f"{rel}: _header2comment: loop over the header lines not found")
+    rules = set()
+    for p_ in lps:
+        for c, t in pq.flat_conds(p_.conds):
+            if pq.pq_is_match(c) and pq.same(c[2][2], E) and c[2][1][0] == 'sym':
+                rules.add(c[2][1][1].strip("'\""))
     okrd = False
-    if rd:
-        m = re.fullmatch(r"-\{(\d+)\}", rd[0].args[0].value)
-        okrd = bool(m) and int(m.group(1)) <= 50
-    rep.check(okrd, "R09.b", rel, "_header2comment", "dashed rules (>= N dashes, N <= 50 written) are skipped", rd[0].args[0].value if rd else "not found", line=h2c.lineno)
-    ks = [n for n in ast.walk(h2c) if isinstance(n, ast.Call) and dotted(n.func) == "re.sub" and isinstance(n.args[0], ast.Constant) and n.args[0].value.startswith(":")]
-    okks = bool(ks) and ks[0].args[0].value == ":.*$" and const_value(ks[0].args[1]) == ""
-    rep.check(okks, "R09.b", rel, "_header2comment", "key = text before the first colon", ks[0].args[0].value if ks else "not found", line=h2c.lineno)
-    vs = [n for n in ast.walk(h2c) if isinstance(n, ast.Assign) and isinstance(n.targets[0], ast.Name) and n.targets[0].id == "val" and isinstance(n.value, ast.Call)]
-    okvs = bool(vs) and ast.unparse(vs[0].value).replace(" ", "") == "elem[len(key)+1:].strip()"
-    rep.check(okvs, "R09.b", rel, "_header2comment", "value = text after the first colon, stripped", ast.unparse(vs[0].value) if vs else "not found", line=h2c.lineno)
+    for r_ in rules:
+        m = re.fullmatch(r"-\{(\d+)\}", r_)
+        if m and int(m.group(1)) <= 50:
+            okrd = True
+            RULE = ('call', '.search', (('sym', 're'), ('sym', repr(r_)), E))
+    rep.check(okrd, "R09.b", rel, "_header2comment", "dashed rules (>= N dashes, N <= 50 written) are skipped", str(sorted(rules)), line=h2c.lineno)
+    stores = [(p_, e) for p_ in lps for e in p_.effects if e.kind == 'store']
+    WIN = ('call', '.search', (('sym', 're'), ('sym', "':'"), ('call', 'getitem', (E, ('call', 'slice', (('sym', 'None'), ('sym', 'KEY_LENGTH_MAX'), ('sym', 'None')))))))
+    RAW = ('call', '.sub', (('sym', 're'), ('sym', "':.*$'"), ('sym', "''"), E))
+    KEYED_KEY = ('call', '.sub', (('sym', 're'), ('sym', "' +'"), ('sym', "'_'"), ('call', '.lower', (('call', '.strip', (RAW,)),))))
+    KEYED_VAL = ('call', '.strip', (('call', 'getitem', (E, ('call', 'slice', (('add', ('call', 'shape', (RAW, _num(0))), _num(1)), ('sym', 'None'), ('sym', 'None'))))),))
+    okks = okvs = okkn = okfree = okskip = bool(stores) and okrd
+    nkeyed = nfree = 0
+    for p_, e in stores:
+        fc = pq.flat_conds(p_.conds)
+        if okrd and pq.cond_truth(fc, RULE) is not False:
+            okskip = False
+        win = pq.cond_truth(fc, WIN)
+        if win is True:
+            nkeyed += 1
+            okkn = okkn and pq.same(e.key, KEYED_KEY)
+            okvs = okvs and pq.same(e.val, KEYED_VAL)
+            okks = okks and bool(pq.find(e.key, lambda x: pq.same(x, RAW)))
+        elif win is False:
+            nfree += 1
+            okfree = okfree and pq.same(e.val, E) and pq.call_named(e.key, ".format") and e.key[2][0] == ('sym', "'comment_{0:02d}'")
+        else:
+            okks = okvs = okkn = okfree = False
+        if pq.cond_truth(fc, ('cmp', '!=', e.val, ('sym', "''"))) is not True:
+            okvs = False
+    rep.check(okskip, "R09.b", rel, "_header2comment", "nothing is stored for a dashed rule line", "", line=h2c.lineno)
+    rep.check(okks and nkeyed >= 1, "R09.b", rel, "_header2comment", "key = text before the first colon (when a colon lies in the key window)", "", line=h2c.lineno)
+    rep.check(okvs and nkeyed >= 1, "R09.b", rel, "_header2comment", "value = text after the first colon, stripped; empty values are not stored", "", line=h2c.lineno)
+    rep.check(okkn and nkeyed >= 1, "R09.b", rel, "_header2comment", "key normalised: strip, lower, blanks -> '_' (identity on the writer's keys)", "", line=h2c.lineno)
+    rep.check(okfree and nfree >= 1, "R09.b", rel, "_header2comment", "lines without a colon in the key window are kept whole under a numbered comment key", "", line=h2c.lineno)
     kl = [n for n in mod.tree.body if isinstance(n, ast.Assign) and isinstance(n.targets[0], ast.Name) and n.targets[0].id == "KEY_LENGTH_MAX"]
     okkl = bool(kl) and isinstance(const_value(kl[0].value), int) and const_value(kl[0].value) >= 17
     rep.check(okkl, "R09.b", rel, "csv", "key window KEY_LENGTH_MAX covers the writer's own keys (longest: time_generated + ' :')", "", line=kl[0].lineno if kl else 1)
-    kn = [n for n in ast.walk(h2c) if isinstance(n, ast.Assign) and isinstance(n.targets[0], ast.Name) and n.targets[0].id == "key" and "lower" in ast.unparse(n.value)]
-    okkn = bool(kn) and ast.unparse(kn[0].value).replace(" ", "") in ("re.sub('+','_',key.strip().lower())",)
-    rep.check(okkn, "R09.b", rel, "_header2comment", "key normalised: strip, lower, blanks -> '_' (identity on the writer's keys)", ast.unparse(kn[0].value) if kn else "", line=h2c.lineno)
 
     # ---------------- R09.c -------------------------------------------------------------------------------------------------------
     tc = [n for n in ast.walk(w) if isinstance(n, ast.Call) and isinstance(n.func, ast.Attribute) and n.func.attr == "to_csv"]
